@@ -175,6 +175,34 @@ def main(argv=None):
         for m in d.get("cross", {}).get("disagree", []):
             harness_errors.append("solver disagreement in %s: %s" % (d.get("name"), m))
 
+    if os.environ.get("VERIF_COLLECT_BATTERY"):
+        bag = []
+        for d in done:
+            for item in d.get("battery", []):
+                if list(item) not in bag:
+                    bag.append(list(item))
+        os.makedirs(os.path.join(VERIF, "battery"), exist_ok=True)
+        with open(os.path.join(VERIF, "battery", "%s.raw.json" % pid), "w") as f:
+            json.dump(bag, f, indent=0)
+
+    # safety net: where changed code left the reach of the lifted execution (or a job crashed / ran out of its budget) no solver verdict
+    # exists for that part.  The property's battery -- the real-code questions its replays ask, at fixed inputs, assembled from an
+    # unchanged-tree run by tools/mkbattery.py -- is then run in a fresh process; a failing one is a violation shown on the real code.
+    lost = [r for r in results if r["status"] == "inconclusive" and any(k in str(r.get("detail", "")) for k in ("out of reach", "time budget", "replay error"))]
+    crashed = [d for d in done if d.get("crashed")]
+    bfile = os.path.join(VERIF, "battery", "%s.json" % pid)
+    if (lost or crashed) and os.path.exists(bfile) and not os.environ.get("VERIF_NO_BATTERY"):
+        from vf import core
+        outs = core.run_battery(json.load(open(bfile)))
+        for k, (spec, inputs, out) in enumerate(outs):
+            res = {"id": "%s/battery/%s/%d" % (pid, spec.split(":")[1], k), "time": 0.0, "nontrivial": True, "job": "battery", "hash": "battery%d" % k,
+                   "kind": "concrete_point", "detail": str(out.get("detail", ""))[:600]}
+            if out.get("ok", True):
+                res["status"] = "discharged"
+            else:
+                res.update(status="violated", replay={"fn": spec, "inputs": out.get("inputs", inputs)})
+            results.append(res)
+
     # known findings are matched by the obligation (call site / relation) they name
     for r in results:
         if r["status"] == "violated":
